@@ -12,13 +12,10 @@ class AbstractOnlineInterpreter(AbstractInterpreter):
         return
 
     def reset(self):
-        # reset sub-specs
-        for key in self.ast.var_subspec_dict:
-            node = self.ast.var_subspec_dict[key]
-            self.resetVisitor.visitAst(node, self.online_operator_dict)
-
-        # reset spec
-        self.resetVisitor.visitAst(self.ast, self.online_operator_dict)
+        # Re-create the online operators of the specification and of its
+        # sub-specifications: every operator starts again from its initial state.
+        self.online_operator_dict = dict()
+        self.visitAst(self.ast)
         return
 
     def set_ast(self, ast):
